@@ -2,6 +2,7 @@ import JediModel.Lemmas.Refs
 import JediModel.Lemmas.Rename
 import JediModel.Lemmas.RefsSound
 import JediModel.Lemmas.RefsMulti
+import JediModel.Model.KwBind
 import JediModel.Gen.C05
 /-! # C05 — Rename rewrites exactly the references and preserves behaviour
 
@@ -240,5 +241,55 @@ example : render (renameMap [1, 3] "yy".toList
                             .leaf 3 "name" [' '] ['x']]))
     (.node 0 "expr_stmt" [.leaf 1 "name" [] ['x'], .leaf 2 "operator" [' '] ['='],
                           .leaf 3 "name" [' '] ['x']]) = "yy = yy".toList := by decide
+
+/-! ## keyword arguments name parameters -/
+section KeywordArguments
+open JediModel.KwBind
+
+/-- **every parameter a call keyword binds is found by the named-param goto** (and with it by
+`get_references` / `rename` from the call site): stated over the kind filter the translator reads
+from `names.py:AbstractTreeName.goto`, for every signature and every keyword. A filter that drops
+keyword-only (or positional-or-keyword) parameters breaks this theorem. -/
+theorem keyword_goto_complete (sig : List Param) (k : Nat) (p : Param) (h : p ∈ pyBinds sig k) :
+    p ∈ gotoKeyword JediModel.Gen.C05.keywordGotoKinds sig k := by
+  have h1 : JediModel.Gen.C05.keywordGotoKinds.contains posOrKw = true := by decide
+  have h3 : JediModel.Gen.C05.keywordGotoKinds.contains kwOnly = true := by decide
+  simp only [pyBinds, gotoKeyword, List.mem_filter, bindable, Bool.and_eq_true, Bool.or_eq_true,
+    beq_iff_eq] at h ⊢
+  obtain ⟨hm, hn, hk⟩ := h
+  refine ⟨hm, hn, ?_⟩
+  cases hk with
+  | inl e => rw [e]; exact h1
+  | inr e => rw [e]; exact h3
+
+example : (⟨7, kwOnly⟩ : Param) ∈ pyBinds [⟨5, posOrKw⟩, ⟨6, varPos⟩, ⟨7, kwOnly⟩] 7 := by decide
+
+/-- the converse holds for filters that accept keyword-capable kinds only (the hypothesis is
+explicit: the unchanged source accepts every kind, see `keyword_goto_unsound_witness`) -/
+theorem keyword_goto_sound_partial (accepted : List KwBind.Kind)
+    (hacc : ∀ a ∈ accepted, a = posOrKw ∨ a = kwOnly)
+    (sig : List Param) (k : Nat) (p : Param) (h : p ∈ gotoKeyword accepted sig k) :
+    p ∈ pyBinds sig k := by
+  simp only [pyBinds, gotoKeyword, List.mem_filter, bindable, Bool.and_eq_true, Bool.or_eq_true,
+    beq_iff_eq, List.contains_iff_mem] at h ⊢
+  obtain ⟨hm, hn, hk⟩ := h
+  exact ⟨hm, hn, hacc _ hk⟩
+
+example : ∀ a ∈ [posOrKw, kwOnly], a = posOrKw ∨ a = kwOnly := by decide
+
+/-- counter-witness for the unrestricted statement: with every kind accepted the keyword `x=` of
+`f(1, x=2)` is tied to `**x` of `def f(a, **x)` although Python puts it into the dictionary
+(finding C05-call-keyword-tied-to-parameter-it-cannot-bind) -/
+theorem keyword_goto_unsound_witness :
+    ∃ sig k p, p ∈ gotoKeyword [posOnly, posOrKw, varPos, kwOnly, varKw] sig k ∧ p ∉ pyBinds sig k :=
+  ⟨[⟨1, posOrKw⟩, ⟨2, varKw⟩], 2, ⟨2, varKw⟩, by decide, by decide⟩
+
+/-- counter-model for a filter that forgets keyword-only parameters: the keyword `k=` of
+`f(1, k=2)` with `def f(a, *, k=0)` binds `k`, the goto answers nothing -/
+theorem keyword_goto_incomplete_without_kwonly :
+    ∃ sig k p, p ∈ pyBinds sig k ∧ p ∉ gotoKeyword [posOrKw] sig k :=
+  ⟨[⟨1, posOrKw⟩, ⟨2, kwOnly⟩], 2, ⟨2, kwOnly⟩, by decide, by decide⟩
+
+end KeywordArguments
 
 end JediModel.Props.C05
